@@ -24,6 +24,12 @@ CHECKS = {
              text='All five update kinds (equal/different price, present/absent id) from an arbitrary level state and inside histories of depth D are compared with the statement (returned order, removed exactly it, others and identity fields untouched, new display for Standard/PostOnly/Iceberg, not-found/rejection change nothing); 14 read-only entry points must leave the complete level state equal.'),
  'C08': dict(technique=CONC, ref='6.8',
              text='Level part only: at quiescence of every well-nested two-thread schedule every resting order is covered by an available ticket (so matching reaches it), aggregates equal sums, nothing handed out twice. The bare-OrderQueue programs of the quantifier are exercised only through the level operations.'),
+ 'C10': dict(technique='bounded symbolic execution of the crate MIR -> SMT: structural round trips from an arbitrary level state, constructors fed arbitrary carried aggregates, listing under a symbolic map iteration order; models replayed on the real crate', ref='6.10',
+             text='PARTIAL (structural conversions only): snapshot -> from_snapshot, &snapshot -> From, level-data -> try_from from an ARBITRARY level state give the same price, orders field for field and aggregates; constructors fed snapshots / level-data with ARBITRARY carried aggregates still report the sums of the contained orders; iter_orders lists each resting order once in non-decreasing timestamp order for every map iteration order. JSON / text / package bytes are outside (C16/C17 reasons).'),
+ 'C11': dict(technique='two-run bounded symbolic execution of the crate MIR -> SMT (original vs snapshot-restored copy of an arbitrary level state, same continuation); both runs replayed on the real crate', ref='6.11',
+             text='The same continuation (one match of <= L iterations; thorough: cancel + match) on an ARBITRARY level state and on its from_snapshot(snapshot()) copy must give the same maker sequence. Recorded known finding C11/snapshot-lists-by-timestamp; the tolerant obligation (same result wherever timestamp order is the queue order) must be unsat.'),
+ 'C19': dict(technique='bounded symbolic execution of the crate MIR -> SMT: one fully symbolic history of D queue calls (kind, id, order symbolic per step) against a reference FIFO; models replayed on the real crate', ref='6.19',
+             text='PARTIAL (API semantics and list constructors): pop/find/remove/len/is_empty/to_vec of OrderQueue against a reference FIFO-with-removal for every history of D calls over 3 ids; from_vec / From<Vec> contain exactly the listed orders in list order. Recorded known finding C19/repush-inherits-stale-ticket. Text / JSON construction outside (codec machinery).'),
  'C12': dict(technique=CONC + '; monitor asserted before every shared-memory step', ref='6.12',
              text='A reader stopped before every shared-memory step of either writer (and at quiescence) must see visible, hidden <= total ever supplied and count <= orders ever added, for every well-nested two-writer schedule from an arbitrary level state.'),
  'C13': dict(technique=CONC, ref='6.13',
